@@ -185,7 +185,7 @@ def build(config, tier):
       stubs=("sse", "uf_sqrt32", "uf_acos_approx32", "uf_sin32"))
     P("vec3_reflect_nonunit_normal", "let v = mk::<Vec3>(); let n = %s; let _r = v.reflect(n);" % nonunit3, "Vec3::reflect", "reflect about a non-unit normal panics")
     P("vec3_project_onto_normalized_nonunit", "let v = mk::<Vec3>(); let n = %s; let _r = v.project_onto_normalized(n);" % nonunit3, "Vec3::project_onto_normalized", "non-unit direction panics")
-    P("vec3_normalize_zero", "let _r = Vec3::ZERO.normalize();", "Vec3::normalize", "normalize of the zero vector panics (result not finite)", stubs=("sse", "uf_sqrt32"), tier="thorough")
+    P("vec3_normalize_zero", "unsafe { crate::uf::SQRT_PINNED = true; } let _r = Vec3::ZERO.normalize();", "Vec3::normalize", "normalize of the zero vector panics (result not finite)", stubs=("sse", "uf_sqrt32"), tier="thorough")
     P("mat4_transform_point3_nonaffine", "let m = mk::<Mat4>(); let p = mk::<Vec3>(); vk::assume(m.to_cols_array()[3] > 1.0); let _r = m.transform_point3(p);", "Mat4::transform_point3", "non-affine last row panics")
     P("mat4_transform_vector3_nonaffine", "let m = mk::<Mat4>(); let p = mk::<Vec3>(); vk::assume(m.to_cols_array()[15] < 0.5); let _r = m.transform_vector3(p);", "Mat4::transform_vector3", "non-affine last row panics")
     P("mat3a_inverse_singular", "let ai = sp::lat9(1); vk::assume(sp::det3(ai) == 0); let m = mk::mat3a_of(sp::f32x9(ai)); let _r = m.inverse();", "Mat3A::inverse", "inverse of a singular lattice matrix panics (determinant exactly 0)")
